@@ -141,7 +141,7 @@ static int tokens_octal_string_to_int(char *s, uint64_t *num)
 
 static int tokens_binary_string_to_int(char *s, uint64_t *num, bool prefixed)
 {
-  int n = 0;
+  uint64_t n = 0;
 
   while (*s!=0 && (*s != 'b' && *s != 'B'))
   {
